@@ -534,6 +534,10 @@ class Tr:
         return args, term
 
 
+def param_list_nonempty(params):
+    return any(t[1] not in ("(", ")") for t in params)
+
+
 def parse_struct(toks, name):
     for i, t in enumerate(toks):
         if t == ("id", "struct") and toks[i + 1] == ("id", name):
@@ -655,6 +659,40 @@ def main():
                 al = "".join(f" ({n} : {t})" for n, t in args)
                 parts.append(f"/-- `{sname}::{m}`: `{src[:300]}` -/\n"
                              f"def {sname}_{m} {{σ : Type}} (ops : ShardsOps σ) (self : {sname}S σ){al} :=\n  {term}\n")
+            # `new()`: the state of a fresh work object — a struct literal of integer literals, `FixedBitSet::new()`
+            # and `Shards::new()` (the empty memory, a parameter here) — and `Default::default()` = `Self::new()`
+            cands = [it for it in items if it[1] == "new" and re.search(rf"^impl\s+{sname}$", it[0])]
+            if len(cands) != 1:
+                raise CannotTranslate(f"{file}: expected exactly one `fn new` in `impl {sname}`")
+            txt = " ".join(t[1] for t in cands[0][3])
+            m = re.fullmatch(r"Self \{ (.*?) ,? ?\}", txt)
+            if not m or param_list_nonempty(cands[0][2]):
+                raise CannotTranslate(f"{sname}::new is not `Self {{ … }}` without parameters: `{txt}`")
+            inits = {}
+            for piece in [x.strip() for x in m.group(1).split(" , ") if x.strip()]:
+                mm = re.fullmatch(r"([a-z_0-9]+) : (.+)", piece)
+                if not mm:
+                    raise CannotTranslate(f"{sname}::new: field initialiser `{piece}`")
+                inits[mm.group(1)] = mm.group(2).strip()
+            if list(inits) != [f for f, _ in fields]:
+                raise CannotTranslate(f"{sname}::new does not initialise exactly the fields of the struct, in order: {list(inits)}")
+            vals = []
+            for f, k in fields:
+                v = inits[f]
+                if k == "nat" and re.fullmatch(r"[0-9_]+", v):
+                    vals.append(f"{f} := {int(v.replace('_', ''))}")
+                elif k == "bitset" and v == "FixedBitSet :: new ( )":
+                    vals.append(f"{f} := (#[] : BitSet)")
+                elif k == "shards" and v == "Shards :: new ( )":
+                    vals.append(f"{f} := emptyShards")
+                else:
+                    raise CannotTranslate(f"{sname}::new: `{f}: {v}`")
+            parts.append(f"/-- `{sname}::new`: `{txt[:300]}` -/\n"
+                         f"def {sname}_new {{σ : Type}} (emptyShards : σ) : {sname}S σ :=\n  {{ " + ", ".join(vals) + " }\n")
+            cands = [it for it in items if it[1] == "default" and re.search(rf"^impl\s+Default\s+for\s+{sname}$", it[0])]
+            if len(cands) != 1 or " ".join(t[1] for t in cands[0][3]) != "Self :: new ( )":
+                raise CannotTranslate(f"{file}: `Default for {sname}` is not `Self::new()`")
+            parts.append(f"/-- `<{sname} as Default>::default`: `Self :: new ( )` -/\ndef {sname}_default_is_new : Bool := true\n")
     except CannotTranslate as e:
         print(f"CANNOT-TRANSLATE: {e}")
         return 3
